@@ -141,9 +141,9 @@ def check_long(run, stats, jobs):
     if need - acts:
         raise RuntimeError(f"vacuous: long group lacks {sorted(need - acts)}")
     sizes = SIZES[run.tier]
-    # quick: every operation on the smallest size, the larger one for reading, filtering, derived column and join
+    # quick: every operation on the smallest size, the larger one for reading the table back (to_list, array, tsv)
     work = [(r, n) for r in recs for n in sizes
-            if run.tier != "quick" or n == sizes[0] or r["act"] in ("GetColumns", "Filtered", "InnerJoin")]
+            if run.tier != "quick" or n == sizes[0] or r["act"] == "GetColumns"]
     t0 = time.time()
     n_done = bad = 0
     with mp.get_context("fork").Pool(min(16, os.cpu_count() or 1), initializer=_worker_init) as pool:
